@@ -511,3 +511,63 @@ def merge_distribution(cases, results):
             prev = o["len"]
         d["ended_mid_round"] += 1 if mid else 0
     return d
+
+
+# ---------------------------------------------------------------------------- C27: WakeState
+
+
+def gen_wake(rng, tier, n):
+    """schedules: wake i fires the occ-th time program point p (0..9) is reached.
+    All single placements and all unordered pairs (exhaustive), plus random triples."""
+    cases = load_corpus("C27")
+    occs = 3
+    places = [(p, o) for p in range(10) for o in range(occs)]
+    cases.append({"k": "wake", "wakes": [], "src": "exh"})
+    for a in places:
+        cases.append({"k": "wake", "wakes": [list(a)], "src": "exh"})
+    pair_places = places if tier == "thorough" else [(p, o) for p in range(10) for o in range(2)]
+    for i, a in enumerate(pair_places):
+        for b in pair_places[i:]:
+            cases.append({"k": "wake", "wakes": [list(a), list(b)], "src": "exh"})
+    k = n if tier == "quick" else n * 20
+    for _ in range(k):
+        m = rng.range(3, 5)
+        cases.append({"k": "wake", "wakes": [[rng.below(10), rng.below(4)] for _ in range(m)], "src": "rnd"})
+    return cases
+
+
+def g_wevent(e):
+    if e[0] == "p":
+        return "EPoint %s" % g_nat(e[1])
+    if e[0] == "w":
+        return "EWake %s" % g_nat(e[1])
+    return {"t": "ETick", "park": "EPark"}.get(e[0], "EBad")
+
+
+def wake_term(case, res):
+    if "log" not in res:
+        return 3
+    wakes = g_lst(["(%s, %s)" % (g_nat(w[0]), g_nat(w[1])) for w in case["wakes"]])
+    return "(chk27 %s %s)" % (wakes, g_lst([g_wevent(e) for e in res["log"]]))
+
+
+def shrink_wake(case):
+    ws = case["wakes"]
+    return [dict(case, wakes=ws[:i] + ws[i + 1:], src="shrunk") for i in range(len(ws))]
+
+
+def wake_distribution(cases, results):
+    d = {"nwakes": {}, "points": {}, "occ": {}, "src": {}, "ticks": {}, "fired": 0, "unfired": 0,
+         "spurious_repolls": 0}
+    for c, r in zip(cases, results):
+        d["nwakes"][str(len(c["wakes"]))] = d["nwakes"].get(str(len(c["wakes"])), 0) + 1
+        d["src"][c.get("src", "?")] = d["src"].get(c.get("src", "?"), 0) + 1
+        for w in c["wakes"]:
+            d["points"][str(w[0])] = d["points"].get(str(w[0]), 0) + 1
+            d["occ"][str(w[1])] = d["occ"].get(str(w[1]), 0) + 1
+        log = r.get("log", [])
+        t = sum(1 for e in log if e[0] == "t")
+        d["ticks"][str(t)] = d["ticks"].get(str(t), 0) + 1
+        d["fired"] += sum(1 for e in log if e[0] == "w")
+        d["unfired"] += len(r.get("unfired", []))
+    return d
